@@ -237,6 +237,18 @@ def c11_case(rng, i):
             pre = rng.choice([b"", b"", b"", b" ", b"\t "])
             post = rng.choice([b"", b"", b"", b" ", b" # note", b"#x.com", b"\r"])
             lines.append(pre + r + post)
+        # long physical lines (a reader with a small fixed buffer must not split them): a long banner comment whose
+        # tail looks like entries, an entry followed by a long comment, around 1 KiB / 4 KiB and well below the 64 KiB
+        # token limit of the loader's scanner
+        if rng.random() < 0.02:
+            ln = rng.choice([1000, 1023, 1024, 1025, 1100, 2047, 2048, 2049, 4095, 4096, 4097])
+            tail = rng.choice([b" com", b" domain:com", b" full:org", b" net # x", b" a.b"])
+            filler = lambda k: b"# " + (b"=" * max(0, k - 2 - len(tail))) + tail
+            if rng.random() < 0.5 or not rules:
+                lines.insert(rng.randrange(len(lines) + 1), filler(ln))
+            else:
+                r0 = rng.choice(rules)
+                lines.insert(rng.randrange(len(lines) + 1), r0 + b" " + filler(max(8, ln - len(r0) - 1)))
         text = b"\n".join(lines)
         if rng.random() < 0.7:
             text += b"\n"
